@@ -4,9 +4,13 @@ package slicecache
 
 import (
 	"context"
+	"errors"
+	"io"
 
+	"github.com/grailbio/base/file"
 	"github.com/grailbio/bigslice/frame"
 	zz "github.com/grailbio/bigslice/internal/zzverif"
+	"github.com/grailbio/bigslice/sliceio"
 )
 
 // zzH_C13_requireAll: Cache is all-or-nothing. For every pattern of cached
@@ -37,4 +41,156 @@ func zzH_C13_requireAll() {
 	var nilc *FileShardCache
 	nilc.RequireAllCached()
 	zz.Assert(!nilc.IsCached(0), "nil cache has nothing cached")
+}
+
+// ---------------------------------------------------------------------
+// Write-through reader over a model of file / zstd / encoder with an
+// independent failure variable at every operation.
+
+type zzWT struct {
+	maxFail   int
+	fails     int
+	committed bool    // file.Close returned nil
+	discarded int     // number of Discard calls
+	closed    int     // number of Close calls
+	fileRows  []int64 // keys that reached the file (flushed by a successful zstd Close)
+	zbuf      []int64 // keys accepted by the encoder/zstd writer, not yet flushed
+	flushed   bool
+	failed    []string
+}
+
+var zzwt *zzWT
+
+func (w *zzWT) fail(op string) bool {
+	if w.fails < w.maxFail && zz.AnyBool("fail_"+op) {
+		w.fails++
+		w.failed = append(w.failed, op)
+		return true
+	}
+	return false
+}
+
+type zzWTFile struct{ w *zzWT }
+
+func (f *zzWTFile) String() string { return "zzfile" }
+func (f *zzWTFile) Name() string   { return "zzfile" }
+func (f *zzWTFile) Stat(ctx context.Context) (file.Info, error) {
+	return nil, errors.New("zz: not supported")
+}
+func (f *zzWTFile) Reader(ctx context.Context) io.ReadSeeker { return nil }
+func (f *zzWTFile) Writer(ctx context.Context) io.Writer     { return zzWTRaw{f.w} }
+func (f *zzWTFile) Discard(ctx context.Context) {
+	zz.Assert(f.w.closed == 0, "file contract: Discard is not called after Close")
+	f.w.discarded++
+}
+func (f *zzWTFile) Close(ctx context.Context) error {
+	zz.Assert(f.w.closed == 0 && f.w.discarded == 0, "file contract: exactly one of Close or Discard")
+	f.w.closed++
+	if f.w.fail("fileClose") {
+		return zzErrIO
+	}
+	f.w.committed = true
+	return nil
+}
+
+type zzWTRaw struct{ w *zzWT }
+
+func (zzWTRaw) Write(p []byte) (int, error) { return len(p), nil }
+
+type zzWTZstd struct{ w *zzWT }
+
+func (z *zzWTZstd) Write(p []byte) (int, error) { return len(p), nil }
+func (z *zzWTZstd) Close() error {
+	if z.w.fail("zstdClose") {
+		// the stream was not terminated: what is in the file is incomplete
+		return zzErrIO
+	}
+	z.w.fileRows = append(z.w.fileRows, z.w.zbuf...)
+	z.w.flushed = true
+	return nil
+}
+
+var zzErrIO = errors.New("zz: injected I/O failure")
+
+func zzStubCreate(ctx context.Context, path string, opts ...file.Opts) (file.File, error) {
+	if zzwt.fail("create") {
+		return nil, zzErrIO
+	}
+	return &zzWTFile{zzwt}, nil
+}
+
+func zzStubZstdWriter(w io.Writer) (io.WriteCloser, error) {
+	if zzwt.fail("zstdNew") {
+		return nil, zzErrIO
+	}
+	return &zzWTZstd{zzwt}, nil
+}
+
+func zzStubNewEncodingWriter(w io.Writer) *sliceio.Encoder { return new(sliceio.Encoder) }
+
+func zzStubEncoderWrite(e *sliceio.Encoder, ctx context.Context, f frame.Frame) error {
+	if zzwt.fail("encode") {
+		return zzErrIO
+	}
+	for i := 0; i < f.Len(); i++ {
+		zzwt.zbuf = append(zzwt.zbuf, f.Index(0, i).Int())
+	}
+	return nil
+}
+
+// zzH_C13_writethrough: the cache file is committed only after a clean end of
+// stream with every operation on the way successful, and then holds every row
+// of the shard in order; any upstream error, write error, close error or early
+// abandonment leaves nothing committed; the rows passed to the caller are the
+// upstream rows regardless.
+func zzH_C13_writethrough() { zzWritethrough(3, 4, 1) }
+func zzH_C13_writethrough_deep() { zzWritethrough(4, 5, 2) }
+
+func zzWritethrough(maxRows, calls, maxFail int) {
+	zzwt = &zzWT{maxFail: maxFail}
+	n := zz.AnyIntIn("rows", 0, maxRows)
+	m := sliceio.ZZNewModel("up", n)
+	m.MaxEmpty = 1
+	if zz.AnyBool("upstreamFails") {
+		m.FailAt = zz.AnyIntIn("failAt", 0, n)
+	}
+	r := newWritethroughReader(m, "zzpath")
+	// the consumer may stop early (Head): it makes between 0 and `calls` reads
+	d := sliceio.ZZDriveReader(r, zz.AnyIntIn("consumerReads", 0, calls), 1, 2, "dst")
+	// pass-through: rows delivered to the caller are the upstream rows
+	ok := len(d.Keys) <= n
+	for i := range d.Keys {
+		if i < n {
+			ok = zz.And(ok, zz.And(d.Keys[i] == m.Keys[i], d.Vals[i] == m.Vals[i]))
+		}
+	}
+	zz.Assert(ok, "the rows passed to the caller are the upstream rows")
+	w := zzwt
+	if w.committed {
+		zz.Reach("cache file committed")
+		zz.Assert(d.Err == sliceio.EOF, "a file is committed only after a clean end of stream")
+		zz.Assert(w.flushed, "a file is committed only if the compressed stream was terminated successfully")
+		zz.Assert(len(w.failed) == 0 || (len(w.failed) == 1 && false), "a file is committed only if every operation on the way succeeded")
+		zz.Assert(len(w.fileRows) == n, "a committed file holds every row of the shard")
+		all := true
+		for i := range w.fileRows {
+			if i < n {
+				all = zz.And(all, w.fileRows[i] == m.Keys[i])
+			}
+		}
+		zz.Assert(all, "a committed file holds the shard's rows in order")
+	} else {
+		zz.Reach("nothing committed")
+	}
+	if d.Err != nil && d.Err != sliceio.EOF {
+		zz.Reach("error surfaced")
+		zz.Assert(!w.committed, "an error leaves no committed file")
+	}
+	if m.Failed() {
+		zz.Assert(!w.committed, "an upstream error leaves no committed file")
+	}
+	if d.Err == nil {
+		zz.Reach("consumer stopped early")
+		zz.Assert(!w.committed, "a partially consumed shard leaves no committed file")
+	}
 }
